@@ -187,6 +187,8 @@ def norm(v):
         return repr(v[2])
     if k == "adt":
         name = v[2]
+        if v[1] == "std::option::Option" and name == "None":
+            name = "Option::None"     # keep apart from the Value::None / Expr::None constructors
         args = tuple(norm(x) for x in v[3])
         # a struct rebuilt from the named field symbols of one value is that value
         if FACTS is not None and args and all(isinstance(a, str) and "." in a for a in args):
